@@ -239,4 +239,130 @@ theorem matrix_stack_bridge (s : View ν α) (hs2 : s.shape.length = 2) (enc : C
         simpa using hg i j
     · simp at hv
 
+/-! ### any source that behaves like the view, and towers of round trips -/
+
+/-- a `(shape, checked getter)` pair of Model/Fallible.lean that reports the shape of a
+    2-dimensional view and answers like it at every pair of indexes -/
+def TSim (enc : Cell → Nat) (T : Fallible.TView ν) (s : View ν α) : Prop :=
+  T.shape = s.shape ∧ ∀ i j, T.get [i, j] = omap enc (s.get [i, j])
+
+/-- `mviewStack` over any such pair -/
+def mviewStackT (A : Fallible.Arith) (T : Fallible.TView ν) (ops : List MatOp) (r c : ν) :
+    Outcome (Except (Shape ν) (Fallible.TView ν)) :=
+  match MatrixView.MView.ofTensor T with
+  | .panic k => .panic k
+  | .ok m0 =>
+    match mviewOps A m0 ops with
+    | .panic k => .panic k
+    | .ok m => MatrixView.tensorRefMatrixWithNames m r c
+
+theorem mviewStack_eq_T (A : Fallible.Arith) (s : View ν α) (enc : Cell → Nat) (ops : List MatOp)
+    (r c : ν) : mviewStack A s enc ops r c = mviewStackT A (s.toTView enc) ops r c := rfl
+
+theorem tsim_toTView (enc : Cell → Nat) (s : View ν α) : TSim enc (s.toTView enc) s :=
+  ⟨rfl, fun _ _ => rfl⟩
+
+/-- `matrix_stack_bridge` for any source that behaves like the view; what comes out behaves like
+    the view `mkMatrixStack` returns, so the statement can be applied again on top -/
+theorem matrix_stack_bridge_T (T : Fallible.TView ν) (s : View ν α) (hs2 : s.shape.length = 2)
+    (enc : Cell → Nat) (hT : TSim enc T s) (ops : List MatOp) (r c : ν) :
+    (mkMatrixStack s ops r c = none →
+      ∃ sh, mviewStackT Fallible.Arith.fixed T ops r c = .ok (.error sh)) ∧
+    (∀ v, mkMatrixStack s ops r c = some v →
+      ∃ T', mviewStackT Fallible.Arith.fixed T ops r c = .ok (.ok T') ∧ TSim enc T' v ∧
+        v.shape.length = 2) := by
+  obtain ⟨d0, d1, hsq⟩ := shape_two hs2
+  have h0 : MatrixView.MView.ofTensor T = .ok ⟨d0.2, d1.2, fun i j => T.get [i, j]⟩ := by
+    simp [MatrixView.MView.ofTensor, Fallible.idxC, hT.1, hsq]
+  have hsim : Sim enc ⟨d0.2, d1.2, fun i j => T.get [i, j]⟩ s := ⟨by simp [hsq], by simp [hsq]⟩
+  obtain ⟨m, em, sm, gm⟩ := sim_ops enc ops _ s hs2 hsim
+  have hshape := (applyMatOps_shape ops s hs2).1
+  have hstack : mviewStackT Fallible.Arith.fixed T ops r c =
+      MatrixView.tensorRefMatrixWithNames m r c := by
+    simp only [mviewStackT, h0, em]
+  have hvalid : Fallible.isValidShape [(r, m.rows), (c, m.columns)] =
+      isValidShape [(r, ((applyMatOps s ops).shape.getD 0 (default, 0)).2),
+        (c, ((applyMatOps s ops).shape.getD 1 (default, 0)).2)] := by
+    rw [sm.rows, sm.columns]; rfl
+  constructor
+  · intro hn
+    simp only [mkMatrixStack, hs2, ne_eq, not_true_eq_false, if_false, mkMatrixOf, hshape] at hn
+    split at hn
+    · simp at hn
+    · rename_i hv
+      rw [hstack]
+      simp only [MatrixView.tensorRefMatrixWithNames]
+      rw [hvalid, if_neg hv]
+      exact ⟨_, rfl⟩
+  · intro v hv
+    simp only [mkMatrixStack, hs2, ne_eq, not_true_eq_false, if_false, mkMatrixOf, hshape] at hv
+    split at hv
+    · rename_i hok
+      simp only [Option.some.injEq] at hv
+      subst hv
+      rw [hstack]
+      simp only [MatrixView.tensorRefMatrixWithNames, hvalid, hok, if_true]
+      refine ⟨_, rfl, ⟨?_, ?_⟩, by simp [View.shape]⟩
+      · simp [View.shape, sm.rows, sm.columns]
+      · intro i j
+        have hne : 1 ≤ ((applyMatOps s ops).shape.getD 0 (default, 0)).2 ∧
+            1 ≤ ((applyMatOps s ops).shape.getD 1 (default, 0)).2 := by
+          simp only [isValidShape, List.any_cons, List.any_nil, Bool.or_false, Bool.and_eq_true,
+            Bool.not_eq_true', Bool.or_eq_false_iff, beq_eq_false_iff_ne, ne_eq] at hok
+          omega
+        have hg := gm hne.1 hne.2 (fun i j => hT.2 i j)
+        simp only [Fallible.idxC, View.get]
+        simpa using hg i j
+    · simp at hv
+
+/-- a tower of round trips: `TensorRefMatrix(ops(MatrixRefTensor(·)))` applied again and again -/
+def mkTower : View ν α → List (List MatOp × ν × ν) → Option (View ν α)
+  | s, [] => some s
+  | s, (ops, r, c) :: rest =>
+    match mkMatrixStack s ops r c with
+    | some v => mkTower v rest
+    | none => none
+
+/-- the same tower in Model/MatrixView.lean -/
+def mviewTower (A : Fallible.Arith) : Fallible.TView ν → List (List MatOp × ν × ν) →
+    Outcome (Except (Shape ν) (Fallible.TView ν))
+  | T, [] => .ok (.ok T)
+  | T, (ops, r, c) :: rest =>
+    match mviewStackT A T ops r c with
+    | .ok (.ok T') => mviewTower A T' rest
+    | .ok (.error sh) => .ok (.error sh)
+    | .panic k => .panic k
+
+theorem matrix_tower_bridge (enc : Cell → Nat) (layers : List (List MatOp × ν × ν)) :
+    ∀ (T : Fallible.TView ν) (s : View ν α), s.shape.length = 2 → TSim enc T s →
+    (mkTower s layers = none →
+      ∃ sh, mviewTower Fallible.Arith.fixed T layers = .ok (.error sh)) ∧
+    (∀ v, mkTower s layers = some v →
+      ∃ T', mviewTower Fallible.Arith.fixed T layers = .ok (.ok T') ∧ TSim enc T' v) := by
+  induction layers with
+  | nil =>
+    intro T s _ hT
+    exact ⟨fun h => by simp [mkTower] at h, fun v h => by
+      simp only [mkTower, Option.some.injEq] at h; subst h; exact ⟨T, rfl, hT⟩⟩
+  | cons layer rest ih =>
+    intro T s hs2 hT
+    obtain ⟨ops, r, c⟩ := layer
+    obtain ⟨hnone, hsome⟩ := matrix_stack_bridge_T T s hs2 enc hT ops r c
+    cases hm : mkMatrixStack s ops r c with
+    | none =>
+      obtain ⟨sh, e⟩ := hnone hm
+      exact ⟨fun _ => ⟨sh, by simp only [mviewTower, e]⟩, fun v h => by simp [mkTower, hm] at h⟩
+    | some v1 =>
+      obtain ⟨T1, e, hT1, h2⟩ := hsome v1 hm
+      obtain ⟨a, b⟩ := ih T1 v1 h2 hT1
+      constructor
+      · intro h
+        simp only [mkTower, hm] at h
+        obtain ⟨sh, e2⟩ := a h
+        exact ⟨sh, by simp only [mviewTower, e, e2]⟩
+      · intro v h
+        simp only [mkTower, hm] at h
+        obtain ⟨T', e2, hT'⟩ := b v h
+        exact ⟨T', by simp only [mviewTower, e, e2], hT'⟩
+
 end EasyMl
